@@ -34,9 +34,36 @@ def main(tier):
             sid += 1
     traces = run_repair_sweeps(jobs, "s20", "c14")
     validate_repair_traces(v, "C14", traces, ev, CLAUSES)
+    # DISTANCES between flushes at production constants (the compressor has thresholds of its own - it emits by itself after
+    # about a megabyte of poorly compressible input and keeps a backlog): a sweep of distances d, "small file, flush, d bytes
+    # of text / random bytes, flush", the destination's bytes at the second flush repaired: both files must be complete
+    import json as _j
+    import os as _os
+    from concurrent.futures import ThreadPoolExecutor
+    wdf = workdir("c14-flushdist")
+    step = "25000" if tier == "quick" else "7000"
+    sweeps = [("comp", "900000", "4300000", step), ("comp+enc", "900000", "4300000", step),
+              ("comp,comp+enc", "4300000", "9000000", "190000" if tier == "quick" else "45000"),
+              ("raw,enc", "100000", "4300000", "350000")]
+    build("prod")
+
+    def fd(i):
+        op = _os.path.join(wdf, f"fd{i}.json")
+        mbt("prod", "flushdist", op, *sweeps[i], timeout=7200)
+        return _j.load(open(op))
+    with ThreadPoolExecutor(max_workers=4) as ex:
+        fouts = list(ex.map(fd, range(len(sweeps))))
+    nfd = 0
+    for o in fouts:
+        nfd += o["runs"]
+        for viol in o["violations"]:
+            v.violation(dict(check="flush-distance", kind=viol["kind"], stack=viol["stack"], text=viol["text"]),
+                        dict(engine="flushdist", profile="prod", detail=viol))
+    ev["flush_distance_runs"] = nfd
+    log(f"[C14] flush distances at production constants: {nfd} archives (0.9-9 MB between flushes, text and random bytes) repaired at the flush")
     cov = dict(states=res.distinct + ev.get("trace_states", 0), transitions=res.generated,
                traces_validated_against_impl=ev.get("traces", 0), repairs_validated=ev.get("repairs", 0),
-               archives=ev.get("scenarios", 0), samples=[dict(labels=c["labels"]) for c in chosen[:2]] or ["none"],
+               archives=ev.get("scenarios", 0), flush_distance_runs_prod=ev.get("flush_distance_runs"), samples=[dict(labels=c["labels"]) for c in chosen[:2]] or ["none"],
                rule="Writer-model behaviours with flush() after every call; the bytes at the destination when each flush "
                     "returned are repaired (both modes) and TLC checks FlushedRecoverable against the model's block layout",
                exhaustive=False)
